@@ -297,3 +297,15 @@ func verifLemmaOperationRoundTrip(data []byte) []byte {
 	}
 	return out
 }
+
+func verifLemmaSchemaRoundTrip(data []byte) []byte {
+	var v Schema
+	if err := v.UnmarshalJSON(data); err != nil {
+		return nil
+	}
+	out, err := v.MarshalJSON()
+	if err != nil {
+		return nil
+	}
+	return out
+}
